@@ -405,7 +405,8 @@ def gen_query(src, preds, cfg, clauses=None):
 _SYM = set('=\\<>-+:;,.|/!')
 _ALNUM = set('abcdefghijklmnopqrstuvwxyzABCDEFGHIJKLMNOPQRSTUVWXYZ0123456789_')
 VAR_STYLES = [lambda i: 'V%d' % i, lambda i: 'XYZUVW'[i % 6] + ('' if i < 6 else str(i)), lambda i: '_v%d' % i,
-              lambda i: 'Var_%d' % i, lambda i: '_G%d' % i, lambda i: 'ABCDE'[i % 5] * (1 + i // 5)]
+              lambda i: 'Var_%d' % i, lambda i: '_G%d' % i, lambda i: 'ABCDE'[i % 5] * (1 + i // 5),
+              lambda i: (['True', 'None', 'ATOM_NIL', 'False', '__debug__', 'V_True', 'L1', 'Arg1', 'DoBreak', 'X1', '__builtins__', 'V_'] + ['W%d' % j for j in range(40)])[i]]
 COMMENTS = ['% c\n', '%\n', "% it's ( [ . :- \n", '% é "\n']
 
 
